@@ -265,14 +265,88 @@ Definition finished (th : thread) : bool :=
   match pc th, prog th with Idle, [] => true | _, _ => false end.
 Definition all_finished (c : cfg) : bool := forallb finished (threads c).
 
+(** descriptors open in the simulated table: fd0, plus dup results, minus closed ones *)
+Fixpoint remove_z (x : Z) (l : list Z) : list Z :=
+  match l with [] => [] | y :: r => if Z.eqb x y then r else y :: remove_z x r end.
+Definition open_fds (fd0 : Z) (c : cfg) : list Z :=
+  fold_left (fun acc e => match e with
+                          | EvDupSys _ _ n => acc ++ [n]
+                          | EvClose _ fd => remove_z fd acc
+                          | _ => acc
+                          end) (trace c) [fd0].
+
+(** The scheduling point a thread is blocked at = the [verif_hooks::point] name in unixfd.rs in
+    front of the atomic action it performs next ("clone.inc" is supplied by the harness: a
+    derived Clone cannot carry a point). *)
+Inductive point := PGetLoad | PTakeLoad | PTakeCas | PHandleDrop | PDupSys | PCloneInc | PDropClose.
+Definition next_point (th : thread) : option point :=
+  match pc th with
+  | Idle => match prog th with
+            | [] => None
+            | Get _ :: _ | Dup _ :: _ => Some PGetLoad      (* UnixFdInner::get: "get.load" *)
+            | Take _ :: _ => Some PTakeLoad                 (* UnixFdInner::take: "take.load" *)
+            | Clone _ :: _ => Some PCloneInc
+            | Drop _ :: _ => Some PHandleDrop               (* Drop for UnixFd (cfg only): "handle.drop" *)
+            end
+  | TakeCas _ _ => Some PTakeCas                            (* "take.cas" *)
+  | TakeDec _ _ => Some PHandleDrop
+  | DupSys _ => Some PDupSys                                (* "dup.syscall" *)
+  | DtorLoad _ => Some PTakeLoad
+  | DtorCas _ _ => Some PTakeCas
+  | DtorClose _ _ => Some PDropClose                        (* "drop.close" *)
+  end.
+(** (thread, operation index, point) of every effective schedule entry, in order *)
+Fixpoint exec_points (sched : list nat) (c : cfg) : list (nat * nat * point) :=
+  match sched with
+  | [] => []
+  | t :: r =>
+    match nth_error (threads c) t with
+    | Some th => match next_point th with Some p => [(t, done th, p)] | None => [] end
+    | None => []
+    end ++ exec_points r (step t c)
+  end.
+
+(** what the harness prints for one input line: per-thread return values, the ordered dup/close
+    calls, the open descriptors at the end, the points passed *)
+Definition observe (fd0 : Z) (progs : list (list op)) (sched : list nat)
+  : list (list res) * list event * list Z * list (nat * nat * point) :=
+  let c0 := init fd0 progs in
+  let c := run sched c0 in
+  (map (fun t => results_of t c) (seq 0 (length progs)), syscalls c, open_fds fd0 c,
+   exec_points (sched ++ completion (exec sched c0)) c0).
+
+(** the same as a flat list of numbers (used to compare the extracted OCaml model with
+    [vm_compute] inside Coq) *)
+Definition enc_opt (o : option Z) : Z := match o with Some v => v | None => (-1)%Z end.
+Definition enc_res (r : res) : list Z :=
+  match r with
+  | RTake o => [1; enc_opt o] | RGet o => [2; enc_opt o] | RDup o => [3; enc_opt o]
+  | RClone => [4; 0] | RDrop => [5; 0] | RInvalid => [6; 0]
+  end%Z.
+Definition enc_ev (e : event) : list Z :=
+  match e with
+  | EvDupSys t s n => [7%Z; Z.of_nat t; s; n]
+  | EvClose t fd => [8%Z; Z.of_nat t; fd]
+  | _ => []
+  end.
+Definition enc_point (p : point) : Z :=
+  match p with
+  | PGetLoad => 1 | PTakeLoad => 2 | PTakeCas => 3 | PHandleDrop => 4 | PDupSys => 5 | PCloneInc => 6 | PDropClose => 7
+  end%Z.
+Definition encode (o : list (list res) * list event * list Z * list (nat * nat * point)) : list Z :=
+  let '(rs, sys, opn, pts) := o in
+  flat_map (fun l => flat_map enc_res l ++ [(-9)%Z]) rs ++ [(-8)%Z] ++ flat_map enc_ev sys ++ [(-7)%Z] ++ opn
+  ++ [(-6)%Z] ++ flat_map (fun x => let '(t, i, p) := x in [Z.of_nat t; Z.of_nat i; enc_point p]) pts.
+
 (** ** Examples: the model computes *)
 Example ex3_progs : list (list op) :=
   [ [Take 0]; [Get 0; Take 0]; [Clone 0; Dup 1; Drop 0; Drop 1] ].
 Example ex3_own : ownership_respected ex3_progs = true.
 Proof. vm_compute. reflexivity. Qed.
 
-(* thread 1 loads, thread 0 loads, thread 1 finishes its get and loads for its take, thread 0
-   wins the compare_exchange, thread 1's compare_exchange fails, thread 2 dups after the take *)
+(* thread 1's get; thread 0 loads; thread 1 loads for its take; thread 0 wins the
+   compare_exchange; thread 1's compare_exchange fails; thread 2 clones, then its dup loads -1;
+   thread 0's handle goes away; the rest runs to completion *)
 Example ex3_run :
   let c := run [1; 0; 1; 0; 1; 2; 2; 0] (init 100 ex3_progs) in
   results_of 0 c = [RTake (Some 100%Z)]
@@ -291,3 +365,10 @@ Example ex2_run :
   /\ syscalls c = [EvDupSys 0 7 8; EvClose 1 7]
   /\ all_finished c = true.
 Proof. vm_compute. repeat split; reflexivity. Qed.
+
+Example ex2_observe :
+  observe 7 [ [Dup 0; Drop 0]; [Get 0; Drop 0] ] [0; 0; 1]
+  = ([ [RDup (Some 8%Z); RDrop]; [RGet (Some 7%Z); RDrop] ], [EvDupSys 0 7 8; EvClose 1 7], [8%Z],
+     [ (0, 0, PGetLoad); (0, 0, PDupSys); (1, 0, PGetLoad); (0, 1, PHandleDrop); (1, 1, PHandleDrop);
+       (1, 1, PTakeLoad); (1, 1, PTakeCas); (1, 1, PDropClose) ]).
+Proof. vm_compute. reflexivity. Qed.
